@@ -130,7 +130,9 @@ func runC02(c *fw.Ctx) {
 		// ----- shape operations -----
 		for dim := 0; dim <= rank; dim++ {
 			dim := dim
-			one(fmt.Sprintf("unsqueeze/%s/%d", sk, dim), func(k *fw.K) (ref.Instr, []*ref.T) { return ref.Instr{Op: "unsqueeze", Dim: dim}, []*ref.T{u(k, shape)} }, 1)
+			one(fmt.Sprintf("unsqueeze/%s/%d", sk, dim), func(k *fw.K) (ref.Instr, []*ref.T) {
+				return ref.Instr{Op: "unsqueeze", Dim: dim}, []*ref.T{u(k, shape)}
+			}, 1)
 		}
 		{
 			targets := shapesWithProduct(ref.Prod(shape), 4)
